@@ -22,11 +22,11 @@ NumKinds == {"q", "f"}
 OutClass(o) == CASE o.k \in NumKinds -> "num" [] o.k = "DomainError" -> "DomainError"
                  [] o.k = "CoordinateMissing" -> "CoordinateMissing" [] OTHER -> "PyError"
 Tag(t, route) == t \o "@" \o route
-Forward == {"pa", "dv"}
+Forward == {"pa", "pa2", "dv"}
 
 \* judgement of ONE recorded outcome o of route rt against reference ref and operational prediction op
 JudgeOne(e, p, v, rt, ref, sup, op, o, sv) ==
-  LET P   == IF rt \in Forward THEN "C03" ELSE "C04"
+  LET P   == IF rt \in Forward THEN "C03" ELSE IF rt = "pe" THEN "C06" ELSE "C04"
       c17 == IF o.k \in {"PyError", "bad"} THEN <<Tag("V:C17.foreign_" \o o.t, rt)>> ELSE <<>>
       c14 == IF sup /\ o.k = "CoordinateMissing" THEN <<Tag("V:C14.missing_raised", rt)>> ELSE <<>>
       val == IF sup /\ ref.k = "q" THEN
@@ -69,8 +69,12 @@ JudgePV(c, e, h, root, p, x, outs, sv, dvout) ==
       old == LocatedComponent(h, root, x, m0, p).v
       oda == LateDifferentialAtComponent(h, root, x, m0, p).v
   IN JudgeOne(e, p, x, "pa", ref, sup, opa, outs.pa, sv)
+     \* the same query on a LONG-LIVED late Partial, asked a second time after the expression was evaluated elsewhere
+     \o JudgeOne(e, p, x, "pa2", ref, sup, opa, outs.pa2, sv)
      \o JudgeOne(e, p, x, "ld", ref, sup, old, outs.ld, sv)
      \o JudgeOne(e, p, x, "da", ref, sup, oda, outs.da, sv)
+     \* EARLY long-lived Partial (symbolic path): judged against the reference only (C07 raise-iff-undefined, value as C06)
+     \o (IF outs.pe.k = "na" THEN <<>> ELSE JudgeOne(e, p, x, "pe", ref, sup, ref, outs.pe, sv))
      \o (IF dvout.k # "na" /\ Vars(e) \subseteq {x} /\ (x \in Vars(e) \/ Vars(e) = {})
          THEN JudgeOne(e, p, x, "dv", ref, sup, opa, dvout, sv) ELSE <<>>)
      \o SvCheck(ref, sup, sv)
@@ -89,7 +93,7 @@ Init == blk \in 1..NBLK /\ i = 0
 Next == i = 0 /\ i' \in { k \in 1..N : (k % NBLK) + 1 = blk } /\ UNCHANGED blk
 Spec == Init /\ [][Next]_<<blk,i>>
 
-DesignTags == { Tag(d, rt) : d \in {"D:pyerr","D:value","D:class"}, rt \in {"pa","ld","da","dv"} }
+DesignTags == { Tag(d, rt) : d \in {"D:pyerr","D:value","D:class"}, rt \in {"pa","pa2","pe","ld","da","dv"} }
 \* ONE invariant: judge once, print, check the design-level clause
 Judged == i = 0 \/ LET v == TLCEval(Verdict(Cases[i])) IN
    /\ PrintT(ToJson([i |-> Cases[i].i, v |-> v]))
